@@ -80,6 +80,7 @@ Definition default_bins_f : list float := [(0x1.e000000000000p+4)%float; (0x1.68
    wrapper runs with (the threshold is the exact value of the binary64 literal) *)
 Definition default_min_temperature_count : nat := 20.
 Definition default_occupancy_threshold : Q := (5854679515581645 # 9007199254740992)%Q.
+Definition default_occupancy_threshold_f : float := (0x1.4cccccccccccdp-1)%float.
 
 (* HourlyModel.fit, uncertainty figures: month_dict, and k.replace(A, B).split(SEP)[I] *)
 Definition wrapper_month_dict : list (string * Z) := [("jan"%string, 1%Z); ("feb"%string, 2%Z); ("mar"%string, 3%Z); ("apr"%string, 4%Z); ("may"%string, 5%Z); ("jun"%string, 6%Z); ("jul"%string, 7%Z); ("aug"%string, 8%Z); ("sep"%string, 9%Z); ("oct"%string, 10%Z); ("nov"%string, 11%Z); ("dec"%string, 12%Z)].
